@@ -17,6 +17,7 @@ RULE = ("Generated: three state types, n 1..3 (thorough: ..4), nh 1..3, na 1..3,
         "cyclic shift d in {+1,-1} with out[b] = f(s_b, s_{b+d}); batch unchanged. Non-trivial = a proper non-empty region "
         "exists (n >= 2), all biases non-zero, and (density) purity of the full state < 1 - 1e-6.")
 RULE_EXT = ('Extended as built: held outputs re-verified after later calls, int64 / float32 sample batches, batches of several hundred rows, parameter scale 30 (bound 80), per-pair reference values rather than only the sum. Rounds 5-6: the documented helper swap(s1, s2, A) called directly for every region form; a bare site index given to the constructor and assigned to the public attribute A.')
+RULE_EXT += ' Round 10 (after an exception / long time axis): refused applications (1-D configuration, wrong width, rank 3; caught) of an observable whose region is all sites before each re-assignment of its region.'
 RULE = RULE + " " + RULE_EXT
 ASSUMPTIONS = ["tolerance 1e-7 absolute on purities (all in [0,1])", "4^n two-row evaluations per region: n=4 only in the thorough tier"]
 
